@@ -390,32 +390,124 @@ def _round_h2_rules(ck, sd):
     if cc is None or "encode" not in cc.methods or "decode" not in cc.methods:
         raise AnalysisError("ContainerCodec.encode/decode not found")
 
-    def frames_per_level(root: str, helper_prefix: str):
-        """(functions on the cycle root -> helper -> dispatcher.<root> -> root, generator expressions around the recursive call)"""
-        fn = cc.methods[root]
-        helpers = {n.func.attr for n in ast.walk(fn.node) if isinstance(n, ast.Call) and isinstance(n.func, ast.Attribute)
-                   and isinstance(n.func.value, ast.Name) and n.func.value.id == "self" and n.func.attr in cc.methods and n.func.attr != root}
-        rec_helpers = [h for h in helpers if any(isinstance(n, ast.Call) and isinstance(n.func, ast.Attribute) and n.func.attr == root
-                                                 for n in ast.walk(cc.methods[h].node))]
-        if not rec_helpers:
-            raise AnalysisError(f"ContainerCodec.{root}: recursion through a helper method not understood")
-        gens = []
-        for g in ast.walk(fn.node):
-            if isinstance(g, ast.GeneratorExp) and any(isinstance(n, ast.Call) and isinstance(n.func, ast.Attribute) and n.func.attr in rec_helpers for n in ast.walk(g)):
-                gens.append(g.lineno)
-        for h in rec_helpers:
-            for g in ast.walk(cc.methods[h].node):
-                if isinstance(g, ast.GeneratorExp) and any(isinstance(n, ast.Call) and isinstance(n.func, ast.Attribute) and n.func.attr == root for n in ast.walk(g)):
-                    gens.append(g.lineno)
-        return 3, gens   # container.<root> -> helper -> dispatcher.<root> -> container.<root>
+    # resolved call graph of serdes.py: receiver types from `self.x = Cls()`, `self.x: Cls | None = ...`, parameters annotated with a class of the
+    # module, and properties that return such an attribute; a local alias of a bound method (`encode = self.dispatcher.encode`) counts as that method
+    all_cls = sd.classes
 
-    ef, eg = frames_per_level("encode", "_wrap")
-    df, dg = frames_per_level("decode", "_unwrap")
-    ck.analysed["frames_per_nesting_level"] = {"encode": ef + len(eg), "decode": df + len(dg)}
-    ck.ob("R12.decoder-reaches-every-depth-the-encoder-accepts", "serdes.py:ContainerCodec.decode", df + len(dg) <= ef + len(eg),
-          f"decoding costs {df + len(dg)} Python frames per nesting level (generator expression around the recursive call at line {dg[0] if dg else '?'}), encoding "
-          f"{ef + len(eg)}: containers nested deeper than recursion-limit/{df + len(dg)} but not deeper than recursion-limit/{ef + len(eg)} are serialized and "
-          "checkpointed, and every replay fails with 'Deserialization failed' (RecursionError)")
+    def ann_class(a):
+        if a is None:
+            return None
+        for n in ast.walk(a):
+            if isinstance(n, ast.Name) and n.id in all_cls:
+                return n.id
+            if isinstance(n, ast.Constant) and isinstance(n.value, str):
+                for cn in all_cls:
+                    if cn in n.value:
+                        return cn
+        return None
+
+    attr_type: dict[tuple[str, str], str] = {}
+    for cn, c in all_cls.items():
+        for m in c.methods.values():
+            for st in ast.walk(m.node):
+                tgt = st.targets[0] if isinstance(st, ast.Assign) and len(st.targets) == 1 else (st.target if isinstance(st, ast.AnnAssign) else None)
+                if isinstance(tgt, ast.Attribute) and isinstance(tgt.value, ast.Name) and tgt.value.id == "self":
+                    t = ann_class(getattr(st, "annotation", None))
+                    v = getattr(st, "value", None)
+                    if t is None and isinstance(v, ast.Call) and isinstance(v.func, ast.Name) and v.func.id in all_cls:
+                        t = v.func.id
+                    if t is None and isinstance(v, ast.Name):
+                        # self.x = <parameter annotated with a class>
+                        for a in m.node.args.args:
+                            if a.arg == v.id:
+                                t = ann_class(a.annotation)
+                    if t:
+                        attr_type[(cn, tgt.attr)] = t
+    for cn, c in all_cls.items():   # properties returning a typed attribute
+        for mn, m in c.methods.items():
+            if any(isinstance(d, ast.Name) and d.id == "property" for d in m.node.decorator_list):
+                for r in ast.walk(m.node):
+                    if isinstance(r, ast.Return) and isinstance(r.value, ast.Attribute) and isinstance(r.value.value, ast.Name) and r.value.value.id == "self" \
+                            and (cn, r.value.attr) in attr_type:
+                        attr_type[(cn, mn)] = attr_type[(cn, r.value.attr)]
+
+    def recv_class(cn, fn_node, e):
+        """class of the receiver expression e inside method fn_node of class cn (None if unknown)"""
+        if isinstance(e, ast.Name):
+            if e.id == "self":
+                return cn
+            for a in fn_node.args.args:
+                if a.arg == e.id:
+                    return ann_class(a.annotation) or ("TypeCodec" if "dispatcher" in a.arg and "TypeCodec" in all_cls else None)
+            return None
+        if isinstance(e, ast.Attribute):
+            base = recv_class(cn, fn_node, e.value)
+            return attr_type.get((base, e.attr)) if base else None
+        return None
+
+    def edges(cn, mn):
+        fn = all_cls[cn].methods[mn].node
+        alias = {}
+        for st in ast.walk(fn):
+            if isinstance(st, ast.Assign) and len(st.targets) == 1 and isinstance(st.targets[0], ast.Name) and isinstance(st.value, ast.Attribute):
+                rc = recv_class(cn, fn, st.value.value)
+                if rc and st.value.attr in all_cls[rc].methods:
+                    alias[st.targets[0].id] = (rc, st.value.attr)
+        gens = [g for g in ast.walk(fn) if isinstance(g, ast.GeneratorExp)]
+        out = []
+        for c in ast.walk(fn):
+            if not isinstance(c, ast.Call):
+                continue
+            tgt = None
+            if isinstance(c.func, ast.Attribute):
+                rc = recv_class(cn, fn, c.func.value)
+                if rc and c.func.attr in all_cls[rc].methods:
+                    tgt = (rc, c.func.attr)
+            elif isinstance(c.func, ast.Name) and c.func.id in alias:
+                tgt = alias[c.func.id]
+            if tgt:
+                out.append((tgt, 1 + sum(1 for g in gens if any(x is c for x in ast.walk(g))), c.lineno))
+        return out
+
+    def frames_per_level(root: str, agg):
+        """frames of one nesting level: ContainerCodec.<root> -> ... -> TypeCodec.<root> -> ... -> ContainerCodec.<root> (weight 1 per function entered, +1 per
+        generator expression around the call; several call sites of the same edge - the arms for list / tuple / dict - are aggregated with `agg`: the
+        cheapest arm for the encoder (what it accepts at most), the dearest for the decoder (what it can read back at least))"""
+        import heapq
+        if "TypeCodec" not in all_cls or root not in all_cls["TypeCodec"].methods:
+            raise AnalysisError(f"TypeCodec.{root} not found")
+
+        def dist(a, b):
+            best, heap = {}, [(0, a, [])]
+            while heap:
+                d, node, path = heapq.heappop(heap)
+                if node == b and d > 0:
+                    return d, path
+                if node in best and best[node] <= d:
+                    continue
+                best[node] = d
+                per_target = {}
+                for tgt, w, ln in edges(*node):
+                    if tgt == node:
+                        continue   # a one-off self call (BatchResult -> dict) is not a nesting level
+                    cur = per_target.get(tgt)
+                    if cur is None or agg(w, cur[0]) == w and w != cur[0]:
+                        per_target[tgt] = (w, ln)
+                for tgt, (w, ln) in per_target.items():
+                    heapq.heappush(heap, (d + w, tgt, path + [f"{node[0]}.{node[1]}->{tgt[0]}.{tgt[1]}@{ln}" + ("(generator)" if w > 1 else "")]))
+            raise AnalysisError(f"no call path {a} -> {b} in the resolved call graph of serdes.py")
+
+        d1, p1 = dist(("ContainerCodec", root), ("TypeCodec", root))
+        d2, p2 = dist(("TypeCodec", root), ("ContainerCodec", root))
+        return d1 + d2, p1 + p2
+
+    ef, ep = frames_per_level("encode", min)
+    df, dp = frames_per_level("decode", max)
+    ck.analysed["frames_per_nesting_level"] = {"encode": ef, "decode": df, "encode_cycle": ep, "decode_cycle": dp}
+    ck.ob("R12.decoder-reaches-every-depth-the-encoder-accepts", "serdes.py:ContainerCodec.decode", df <= ef,
+          f"decoding costs {df} Python frames per nesting level ({' ; '.join(dp)}), encoding only {ef} ({' ; '.join(ep)}): containers nested deeper than "
+          f"recursion-limit/{df} but not deeper than recursion-limit/{ef} are serialized and checkpointed, and every replay fails with 'Deserialization failed' "
+          "(RecursionError)")
 
     # R13 the dispatcher hands the VALUE to the codec that was selected for its type; an arm that converts it first (`bytes(obj)`) selects by a set of
     # types but records only one: the others are accepted and come back as that one ("rejected rather than silently altered")
